@@ -624,6 +624,25 @@ func c17decodeGuard(p *core.Prog, eff *ssa.Function) (bool, string) {
 				return true
 			}
 		}
+		// a private one-line predicate over the same field (`response.failed()` = `response.Err != nil`)
+		for _, cnd := range core.EdgeFacts(b) {
+			n := core.Normalize(cnd)
+			call, isC := n.V.(*ssa.Call)
+			if !isC {
+				continue
+			}
+			h := core.Callee(&call.Call)
+			if h == nil || !p.InRepo(h) || len(h.Blocks) != 1 || h.Object() == nil || h.Object().Exported() {
+				continue
+			}
+			ret, isRet := h.Blocks[0].Instrs[len(h.Blocks[0].Instrs)-1].(*ssa.Return)
+			if !isRet || len(ret.Results) != 1 {
+				continue
+			}
+			if m, okM := core.AsCmp(core.Cond{V: ret.Results[0], True: n.True}); okM && m.Op == token.EQL && core.IsNilConst(m.Y) && core.FieldKey(m.X) == "ResponseWithError.Err" {
+				return true
+			}
+		}
 		return false
 	}
 	for _, f := range found {
